@@ -94,6 +94,32 @@ func (e *Engine) binop(f *Frame, st *State, op token.Token, x, y Val, rt types.T
 		}
 		var r string
 		checkRange := false
+		// constant folding of bit operations
+		if xn, ok1 := litInt(x.S); ok1 {
+			if yn, ok2 := litInt(y.S); ok2 {
+				a, okA := constIntString(xn)
+				c, okC := constIntString(yn)
+				if okA && okC {
+					folded := true
+					var v int64
+					switch op {
+					case token.AND:
+						v = a & c
+					case token.OR:
+						v = a | c
+					case token.XOR:
+						v = a ^ c
+					case token.AND_NOT:
+						v = a &^ c
+					default:
+						folded = false
+					}
+					if folded {
+						return Val{T: rt, S: sInt(v)}
+					}
+				}
+			}
+		}
 		switch op {
 		case token.ADD:
 			r = fmt.Sprintf("(+ %s %s)", x.S, y.S)
